@@ -12,6 +12,17 @@ var ansiEscape = regexp.MustCompile(`\x1b\[[0-9;]*[A-Za-z]`)
 // Only sound for ints, floats, booleans, NULL and quote-free, separator-free strings (the generators using it comply).
 func canonNativeCell(s string) string {
 	s = strings.TrimSpace(s)
+	if len(s) >= 2 && s[0] == '[' && s[len(s)-1] == ']' {
+		// a list: "[1, 2]" / "['x', 'y']" / "[]" (strings are quoted, so a String value cannot start with a bracket)
+		if s == "[]" {
+			return "[]"
+		}
+		parts := splitTopLevel(s[1:len(s)-1], ", ")
+		for i := range parts {
+			parts[i] = canonNativeCell(parts[i])
+		}
+		return "[" + strings.Join(parts, ",") + "]"
+	}
 	switch {
 	case s == "<null>":
 		return "null"
@@ -28,6 +39,27 @@ func canonNativeCell(s string) string {
 		return c
 	}
 	return "?:" + s
+}
+
+// splitTopLevel splits s at the separator, but not inside brackets (the elements of a printed list are separated like the
+// values of a stream_native record).
+func splitTopLevel(s, sep string) []string {
+	var out []string
+	depth, start := 0, 0
+	for i := 0; i < len(s); i++ {
+		switch s[i] {
+		case '[':
+			depth++
+		case ']':
+			depth--
+		}
+		if depth == 0 && strings.HasPrefix(s[i:], sep) {
+			out = append(out, s[start:i])
+			start = i + len(sep)
+			i += len(sep) - 1
+		}
+	}
+	return append(out, s[start:])
 }
 
 // ParseTableOut decodes -o live_table / batch_table output (the last table printed).
@@ -91,7 +123,7 @@ func ParseNativeOut(out string, cols []string) ([]Row, error) {
 			return nil, fmt.Errorf("stream_native line %d not understood: %q", i+1, line)
 		}
 		body := line[bar+2 : len(line)-3]
-		cells := strings.Split(body, ", ")
+		cells := splitTopLevel(body, ", ")
 		if len(cells) != len(cols) {
 			return nil, fmt.Errorf("stream_native line %d has %d values, want %d: %q", i+1, len(cells), len(cols), line)
 		}
